@@ -169,6 +169,8 @@ var truncations = []struct{ src, kind string }{
 var unclosedOuters = []string{
 	"@if(x)", "@if(x)a@else", "@if(x)a@elseif(y)", "@if(x)@elseif(y)@else", "@each(v in a)", "@each(v in a)q@else", "@for(;;)", "@for(i = 0; i < 1; i++)q@else",
 	"@insert(\"o\")", "@component(\"c\")@slot(\"s\")", "@component(\"c\")@slot(\"s\")x@end", "@component(\"c\")@slot",
+	// the same with the line ends of other platforms between the component and its slots
+	"@component(\"c\")\r\n@slot(\"s\")\r\n", "@component(\"c\")\r@slot", "<div>\r\n@component(\"c\", {a: 1})\r\n\t@slot(\"s\")x@end\r\n", "@component(\"c\") \n\t\r\n @slot(\"s\")",
 }
 
 var closedInners = []string{
@@ -407,18 +409,23 @@ func init() {
 			// the same kinds of inputs as the content of a file in the template directory
 			secs = append(secs, core.Section{Name: "file-api", N: nFile,
 				Run: func(c *core.Ctx, i int) {
-					var src string
+					var src, mustFail string
 					switch i % 3 {
 					case 0:
-						full, _ := corpusTemplate(c)
-						src = full[:c.Rng.Intn(len(full)+1)]
+						full, spans := corpusTemplate(c)
+						o := c.Rng.Intn(len(full) + 1)
+						src = full[:o]
+						if o < len(full) {
+							mustFail = insideSpan(spans, o)
+						}
 					case 1:
 						t := truncations[c.Rng.Intn(len(truncations))]
 						src = truncationPrefixes[c.Rng.Intn(len(truncationPrefixes))] + t.src
+						mustFail = spanNames[t.kind]
 					default:
 						src = randomAtomString(c.Rng, all, 200)
 					}
-					loadOneFile(c, src)
+					loadOneFile(c, src, mustFail)
 				}})
 			// several goroutines lex and parse at once, every input with words never seen before in the process
 			secs = append(secs, core.Section{Name: "concurrent-parsing", N: 16,
@@ -479,11 +486,17 @@ var cycleTrees = []map[string]string{
 }
 
 // loadOneFile writes src as the only file of a template directory and loads it
-func loadOneFile(c *core.Ctx, src string) {
+func loadOneFile(c *core.Ctx, src string, mustFail string) {
 	dir := "c08dir"
 	os.RemoveAll(dir)
 	os.MkdirAll(dir, 0o755)
 	defer os.RemoveAll(dir)
+	// files an editor, a version control system or a file manager leaves in a template directory
+	os.WriteFile(filepath.Join(dir, ".gitkeep"), nil, 0o644)
+	os.WriteFile(filepath.Join(dir, ".DS_Store"), []byte("\x00\x00\x00\x01Bud1"), 0o644)
+	os.MkdirAll(filepath.Join(dir, ".git"), 0o755)
+	os.WriteFile(filepath.Join(dir, ".git", "HEAD"), []byte("ref: refs/heads/main\n"), 0o644)
+	os.WriteFile(filepath.Join(dir, "page.tw~"), []byte("{{ backup of an editor"), 0o644)
 	if err := os.WriteFile(filepath.Join(dir, "page.tw"), []byte(src), 0o644); err != nil {
 		c.Inconclusive("cannot write scratch file: " + err.Error())
 		return
@@ -500,6 +513,9 @@ func loadOneFile(c *core.Ctx, src string) {
 	if (tpl == nil) == (err == nil) {
 		c.Violation("load-contract", fmt.Sprintf("NewTemplate returned template=%v error=%v", tpl != nil, err), map[string]any{"content": src})
 		return
+	}
+	if err == nil && mustFail != "" {
+		c.Violation("accepted-file:"+mustFail, fmt.Sprintf("a template file that ends inside %s was loaded without an error", mustFail), map[string]any{"content": src})
 	}
 	if err != nil {
 		c.Count("file_loads_rejected", 1)
